@@ -289,7 +289,7 @@ class Interp:
                     out[-1][1].append(x)
                 else:
                     out.append((k, [x]))
-            return out
+            return iter([(k, iter(g)) for k, g in out])
 
         def mean(xs: Any) -> Any:
             xs = list(self.iterate(xs))
@@ -359,11 +359,73 @@ class Interp:
                         cur = self.getattr(cur, part, ast.Constant(value=None), None)
                     vals.append(cur)
                 return vals[0] if len(vals) == 1 else tuple(vals)
+            get._raw = True  # type: ignore[attr-defined]
             return get
 
         def itemgetter(*keys: Any) -> Any:
-            return lambda o: o[keys[0]] if len(keys) == 1 else tuple(o[k] for k in keys)
+            def item(o: Any, k: Any) -> Any:
+                try:
+                    return o[self.canon_key(o, k)] if isinstance(o, dict) else o[k]
+                except (KeyError, IndexError, TypeError) as exc:
+                    raise AbsRaise(f"{type(exc).__name__}: {exc}") from exc
+
+            def get(o: Any) -> Any:
+                return item(o, keys[0]) if len(keys) == 1 else tuple(item(o, k) for k in keys)
+            get._raw = True  # type: ignore[attr-defined]
+            return get
         import collections as _c
+        import re as _re2
+
+        def counter(xs: Any = (), **kw: Any) -> Any:
+            items = list(xs.items()) if isinstance(xs, dict) else list(self.iterate(xs))
+            if any(self._has_abs(x) for x in items):
+                raise AnalysisError("ABSINT", "Counter over abstract objects outside fragment")
+            return _c.Counter(xs if isinstance(xs, dict) else items, **kw)
+
+        def defaultdict(factory: Any = None, *a: Any, **kw: Any) -> Any:
+            if isinstance(factory, tuple) and factory and factory[0] == "builtin" and factory[1] in _BUILTIN_TYPES:
+                fac: Any = _BUILTIN_TYPES[factory[1]]
+            elif factory is None:
+                fac = None
+            else:
+                fac = self.pyfunc(factory)
+            return _c.defaultdict(fac, *a, **kw)
+
+        def number_ctor(mod: str, cls: str) -> Any:
+            def make(*a: Any) -> Any:
+                import importlib
+                if any(isinstance(x, (AObj, OrdInt)) for x in a):
+                    raise AbsRaise(f"TypeError: conversion of an object to {cls}")
+                try:
+                    return getattr(importlib.import_module(mod), cls)(*a)
+                except (ValueError, TypeError, ArithmeticError) as exc:
+                    raise AbsRaise(f"{type(exc).__name__}: {exc}") from exc
+            return make
+
+        def raw(fn: Any) -> Any:
+            """A callable of the evaluator itself: receives abstract values as they are (no proxies)."""
+            fn._raw = True
+            return fn
+
+        def methodcaller(name: str, *margs: Any, **mkw: Any) -> Any:
+            node = ast.Attribute(value=ast.Name(id="obj", ctx=ast.Load()), attr=name, ctx=ast.Load())
+            return raw(lambda o: self.apply_value(self.getattr(o, name, node, None), list(margs), dict(mkw),
+                                                  ast.Constant(value=None), "", None))
+
+        def partial(f: Any, *a: Any, **k: Any) -> Any:
+            return raw(lambda *b, **k2: self.apply_value(f, list(a) + list(b), {**k, **k2}, ast.Constant(value=None), "", None))
+
+        def re_call(fname: str) -> Any:
+            def run(*a: Any, **k: Any) -> Any:
+                a2 = [self.pyfunc(x) if isinstance(x, (Lambda, FuncRef, BoundMethod, LocalFunc)) or
+                      (isinstance(x, tuple) and x and x[0] == "pymethod") else x for x in a]
+                if any(isinstance(x, (AObj, OrdInt)) for x in a2):
+                    raise AbsRaise("TypeError: expected string or bytes-like object")
+                try:
+                    return getattr(_re2, fname)(*a2, **k)
+                except TypeError as exc:
+                    raise AbsRaise(f"TypeError: {exc}") from exc
+            return run
         d = {
             "copy.deepcopy": deepcopy,
             "copy.copy": shallow,
@@ -389,26 +451,34 @@ class Interp:
             "logging.critical": lambda *a, **k: None,
             "warnings.warn": lambda *a, **k: None,
             "collections.OrderedDict": lambda *a, **k: dict(*a, **k),
-            "collections.Counter": lambda xs=(): dict(_c.Counter(list(self.iterate(xs)))),
-            "collections.deque": lambda xs=(): list(self.iterate(xs)),
-            "re.sub": re_sub,
+            "collections.Counter": counter,
+            "collections.defaultdict": defaultdict,
+            "collections.deque": lambda xs=(), maxlen=None: ADeque(self.iterate(xs)) if maxlen is None else
+            (_ for _ in ()).throw(AnalysisError("ABSINT", "deque(maxlen=...) outside fragment")),
+            **{f"re.{fn}": re_call(fn) for fn in ("sub", "subn", "escape", "compile", "match", "fullmatch", "search",
+                                                   "findall", "finditer", "split")},
+            **{f"re.{c}": getattr(_re2, c) for c in ("IGNORECASE", "I", "MULTILINE", "M", "DOTALL", "S", "VERBOSE", "X",
+                                                     "ASCII", "A", "UNICODE", "U")},
+            "operator.methodcaller": methodcaller,
+            "decimal.Decimal": number_ctor("decimal", "Decimal"),
+            "fractions.Fraction": number_ctor("fractions", "Fraction"),
             "math.prod": prod,
-            "itertools.combinations": lambda xs, k: list(_it.combinations(list(self.iterate(xs)), k)),
-            "itertools.product": lambda *xs: list(_it.product(*[list(self.iterate(x)) for x in xs])),
-            "itertools.chain": lambda *xs: [y for x in xs for y in self.iterate(x)],
+            "itertools.combinations": lambda xs, k: iter(list(_it.combinations(list(self.iterate(xs)), k))),
+            "itertools.product": lambda *xs: iter(list(_it.product(*[list(self.iterate(x)) for x in xs]))),
+            "itertools.chain": lambda *xs: iter([y for x in xs for y in self.iterate(x)]),
             "functools.reduce": reduce,
             "itertools.groupby": groupby,
-            "itertools.permutations": lambda xs, k=None: list(_it.permutations(list(self.iterate(xs)), k)),
-            "itertools.accumulate": lambda xs, f=None: list(_acc(self, xs, f)),
-            "itertools.islice": lambda xs, *a: list(_it.islice(list(self.iterate(xs)), *a)),
-            "itertools.zip_longest": lambda *xs, fillvalue=None: list(_it.zip_longest(*[list(self.iterate(x)) for x in xs], fillvalue=fillvalue)),
+            "itertools.permutations": lambda xs, k=None: iter(list(_it.permutations(list(self.iterate(xs)), k))),
+            "itertools.accumulate": lambda xs, f=None: iter(list(_acc(self, xs, f))),
+            "itertools.islice": lambda xs, *a: iter(list(_it.islice(list(self.iterate(xs)), *a))),
+            "itertools.zip_longest": lambda *xs, fillvalue=None: iter(list(_it.zip_longest(*[list(self.iterate(x)) for x in xs], fillvalue=fillvalue))),
             "itertools.repeat": lambda x, k: [x] * k,
-            "itertools.starmap": lambda f, xs: [self.apply_value(f, list(self.iterate(a)), {}, ast.Constant(value=None), "", None) for a in self.iterate(xs)],
-            "itertools.takewhile": lambda f, xs: list(_it.takewhile(lambda x: self.truth(self._apply(f, x)), list(self.iterate(xs)))),
-            "itertools.dropwhile": lambda f, xs: list(_it.dropwhile(lambda x: self.truth(self._apply(f, x)), list(self.iterate(xs)))),
-            "itertools.filterfalse": lambda f, xs: [x for x in self.iterate(xs) if not self.truth(self._apply(f, x) if f is not None else x)],
-            "itertools.chain.from_iterable": lambda xs: [y for x in self.iterate(xs) for y in self.iterate(x)],
-            "functools.partial": lambda f, *a, **k: (lambda *b, **k2: self.apply_value(f, list(a) + list(b), {**k, **k2}, ast.Constant(value=None), "", None)),
+            "itertools.starmap": lambda f, xs: iter([self.apply_value(f, list(self.iterate(a)), {}, ast.Constant(value=None), "", None) for a in self.iterate(xs)]),
+            "itertools.takewhile": lambda f, xs: iter(list(_it.takewhile(lambda x: self.truth(self._apply(f, x)), list(self.iterate(xs))))),
+            "itertools.dropwhile": lambda f, xs: iter(list(_it.dropwhile(lambda x: self.truth(self._apply(f, x)), list(self.iterate(xs))))),
+            "itertools.filterfalse": lambda f, xs: iter([x for x in self.iterate(xs) if not self.truth(self._apply(f, x) if f is not None else x)]),
+            "itertools.chain.from_iterable": lambda xs: iter([y for x in self.iterate(xs) for y in self.iterate(x)]),
+            "functools.partial": partial,
             "statistics.mean": mean,
             "statistics.median": median,
             "logging.warning": lambda *a, **k: None,
@@ -459,8 +529,8 @@ class Interp:
             try:
                 self.exec_block(fi.node.body, env, fi)
             except _Return as r:
-                return env["__yielded__"] if is_gen else r.value
-            return env["__yielded__"] if is_gen else None
+                return iter(env["__yielded__"]) if is_gen else r.value
+            return iter(env["__yielded__"]) if is_gen else None
         finally:
             self.depth -= 1
 
@@ -515,8 +585,8 @@ class Interp:
             try:
                 self.exec_block(f.node.body, e2, f.fi)
             except _Return as r:
-                return e2["__yielded__"] if is_gen else r.value
-            return e2["__yielded__"] if is_gen else None
+                return iter(e2["__yielded__"]) if is_gen else r.value
+            return iter(e2["__yielded__"]) if is_gen else None
         finally:
             self.depth -= 1
 
@@ -636,6 +706,8 @@ class Interp:
             try:
                 self.exec_block(st.body, env, fi)
             except AbsRaise as exc:
+                if not st.handlers:
+                    raise
                 import re as _re
                 mk = _re.match(r"[A-Za-z_][A-Za-z0-9_.]*", exc.what.strip())
                 kind_ = (mk.group(0) if mk else "Exception").split(".")[-1]
@@ -658,8 +730,18 @@ class Interp:
             else:
                 self.exec_block(st.orelse, env, fi)
             finally:
-                pass
-            self.exec_block(st.finalbody, env, fi)
+                self.exec_block(st.finalbody, env, fi)      # also on return/break/continue/unhandled raise
+            return
+        if isinstance(st, ast.Match):
+            subject = self.eval(st.subject, env, fi)
+            for case in st.cases:
+                binds: dict[str, Any] = {}
+                if self._match(case.pattern, subject, binds, env, fi):
+                    env.update(binds)
+                    if case.guard is not None and not self.truth(self.eval(case.guard, env, fi)):
+                        continue
+                    self.exec_block(case.body, env, fi)
+                    return
             return
         if isinstance(st, ast.FunctionDef):
             env[st.name] = LocalFunc(st, env, fi)
@@ -829,6 +911,8 @@ class Interp:
         if isinstance(n, (ast.ListComp, ast.SetComp, ast.GeneratorExp)):
             out: list[Any] = []
             self._comp(n.generators, 0, dict(env), fi, lambda e: out.append(self.eval(n.elt, e, fi)))
+            if isinstance(n, ast.GeneratorExp):
+                return iter(out)             # one-shot, like the generator it stands for (evaluated eagerly)
             return set(self.dedupe(out)) if isinstance(n, ast.SetComp) else out
         if isinstance(n, ast.DictComp):
             dd: dict[Any, Any] = {}
@@ -1056,6 +1140,9 @@ class Interp:
                 m = self.pm.method(self.pm.cls(a._cls), "__eq__")
                 if m is not None and not m.unit.env:
                     return self.truth(self.call(m, [a, b]))
+            ra, rb = a._f.get("_record"), b._f.get("_record")
+            if ra is not None and rb is not None and a._cls == b._cls and ra[1].get("eq", True):
+                return all(self._eq(a._f[n], b._f[n]) for n in ra[0])
             return False
         if isinstance(a, AObj) or isinstance(b, AObj):
             # the object's own __eq__ decides (it is also asked about values of other types)
@@ -1194,7 +1281,12 @@ class Interp:
                     return BoundMethod(obj, m, self.decorated_attrs(m))
                 for c in self.pm.mro(ci):
                     if attr in c.class_attrs:
-                        return self.class_attr(c, attr)
+                        cv = self.class_attr(c, attr)
+                        if isinstance(cv, FuncRef) and not cv.fi.is_static():
+                            return BoundMethod(obj, cv.fi, cv.attrs)     # a function stored on the class binds
+                        if isinstance(cv, (Lambda, LocalFunc)):
+                            return self._bind_callable(cv, obj)
+                        return cv
             if obj._f.get("_complete"):
                 raise AbsRaise(f"AttributeError: '{obj._cls}' object has no attribute '{attr}'", where)
             raise AnalysisError("ABSINT", f"observation {obj._cls}.{attr} is outside the abstract "
@@ -1245,8 +1337,21 @@ class Interp:
             return ModuleRef(full)
         if isinstance(obj, tuple) and len(obj) == 2 and obj[0] == "builtin" and obj[1] == "dict" and attr == "fromkeys":
             return lambda keys, value=None: {k: value for k in self.dedupe(self.iterate(keys))}
+        if isinstance(obj, tuple) and attr in getattr(obj, "_fields", ()):
+            return getattr(obj, attr)
+        if isinstance(obj, tuple) and hasattr(obj, "_fields") and attr in ("_replace", "_asdict", "_fields"):
+            return getattr(obj, attr)
         if isinstance(obj, (str, bytes, list, dict, set, tuple, frozenset)):
             return ("pymethod", obj, attr)
+        if isinstance(obj, slice) and attr in ("start", "stop", "step"):
+            return getattr(obj, attr)
+        if type(obj).__module__ == "re":              # compiled patterns and match objects are values
+            return self._re_attr(obj, attr, where)
+        if type(obj).__module__ in ("decimal", "fractions", "_decimal", "_pydecimal"):   # immutable numbers
+            try:
+                return getattr(obj, attr)
+            except AttributeError as exc:
+                raise AbsRaise(f"AttributeError: {exc}", where) from exc
         if isinstance(obj, OrdInt):
             raise AnalysisError("CARD", f"attribute {attr} of ordinal {obj.tag}", where)
         raise AnalysisError("ABSINT", f"attribute {attr} of {type(obj).__name__} outside fragment",
@@ -1325,7 +1430,16 @@ class Interp:
                 self.sites.add((fi.unit.path, getattr(n, "lineno", 0), f.ci.name))
             if init is not None:
                 self.call(init, [obj] + args, kwargs)
-            elif args or kwargs:
+                return obj
+            rk = self.pm.record_kind(f.ci)
+            if rk is not None:
+                return self.make_record(f.ci, rk, obj, args, kwargs, where)
+            if args or kwargs:
+                known = {"object", "ABC", "Exception", "Enum", "Generic", "Protocol"}
+                if f.ci.node.decorator_list or any(self.pm.resolve_base(f.ci, b) is None and b.split(".")[-1].split("[")[0] not in known
+                                                    for c in self.pm.mro(f.ci) for b in c.bases):
+                    raise AnalysisError("ABSINT", f"construction of {f.ci.name} through a decorator or base class "
+                                                  f"outside the fragment", where)
                 raise AbsRaise(f"TypeError: {f.ci.name}() takes no arguments", where)
             return obj
         if isinstance(f, SuperProxy):
@@ -1338,8 +1452,21 @@ class Interp:
                     if c is not base and any(self.pm.resolve_base(c, b) is base for b in c.bases)]
         if isinstance(f, tuple) and f and f[0] == "pymethod":
             _, obj, attr = f
+            if attr == "__getitem__" and len(args) == 1:
+                try:
+                    return obj[self.canon_key(obj, args[0])] if isinstance(obj, dict) else obj[args[0]]
+                except (KeyError, IndexError, TypeError) as exc:
+                    raise AbsRaise(f"{type(exc).__name__} at {src(n)}", where) from exc
+            if attr == "__contains__" and len(args) == 1:
+                return self.compare(ast.In(), args[0], obj, n)
+            if attr == "__len__" and not args:
+                return self.builtin("len", [obj], {}, n, where)
+            if attr == "__eq__" and len(args) == 1:
+                return self._eq(obj, args[0])
             if attr in ("append", "extend", "add", "update", "pop", "insert", "remove", "clear",
-                        "sort", "reverse", "setdefault") and isinstance(obj, (list, set, dict)) \
+                        "sort", "reverse", "setdefault", "popleft", "appendleft", "extendleft", "rotate",
+                        "discard", "popitem", "difference_update", "intersection_update",
+                        "symmetric_difference_update", "subtract") and isinstance(obj, (list, set, dict)) \
                     and getattr(obj, "_frozen", False):
                 raise AbsMutation(f"{attr}() on an input container ({src(n)})", where)
             if isinstance(obj, (str, bytes)) and attr in _STR_METHODS:
@@ -1396,16 +1523,29 @@ class Interp:
                     "append", "extend", "add", "update", "pop", "insert", "keys", "values",
                     "items", "get", "index", "count", "copy", "remove", "sort", "reverse", "clear",
                     "setdefault", "discard", "union", "difference", "intersection", "issubset",
-                    "symmetric_difference", "issuperset", "isdisjoint", "popitem"):
+                    "symmetric_difference", "issuperset", "isdisjoint", "popitem", "popleft", "appendleft",
+                    "extendleft", "rotate", "most_common", "elements", "total", "subtract", "move_to_end",
+                    "difference_update", "intersection_update", "symmetric_difference_update"):
+                if attr in ("index", "count", "remove") and isinstance(obj, (list, tuple)) and args and \
+                        (self._has_abs(args[0]) or any(self._has_abs(x) for x in obj)):
+                    hits = [i for i, x in enumerate(obj) if x is args[0] or self._eq(x, args[0])]
+                    if attr == "count":
+                        return len(hits)
+                    if not hits:
+                        raise AbsRaise(f"ValueError at {src(n)}", where)
+                    if attr == "index":
+                        return hits[0]
+                    del obj[hits[0]]
+                    return None
                 try:
                     return getattr(obj, attr)(*args, **kwargs)
-                except (IndexError, KeyError, ValueError) as exc:
+                except (IndexError, KeyError, ValueError, AttributeError, TypeError) as exc:
                     raise AbsRaise(f"{type(exc).__name__} at {src(n)}", where) from exc
             raise AnalysisError("ABSINT", f"method {attr} of {type(obj).__name__} outside fragment",
                                 where)
         if callable(f) and not isinstance(f, (AObj, ClassRef, FuncRef, BoundMethod, Lambda, LocalFunc, ModuleRef,
                                               EnumVal, SuperProxy)):
-            nargs = [AObjProxy(self, a) if isinstance(a, AObj) else a for a in args]
+            nargs = args if getattr(f, "_raw", False) else [AObjProxy(self, a) if isinstance(a, AObj) else a for a in args]
             try:
                 return f(*nargs, **kwargs)
             except (IndexError, KeyError) as exc:
@@ -1419,6 +1559,10 @@ class Interp:
 
     def builtin(self, name: str, args: list[Any], kwargs: dict[str, Any], n: ast.AST,
                 where: str) -> Any:
+        if name == "object":
+            return Native() if not args else (_ for _ in ()).throw(AbsRaise("TypeError: object() takes no arguments", where))
+        if name == "slice":
+            return slice(*args)
         if name == "len":
             v = args[0]
             if is_native(v):
@@ -1435,6 +1579,11 @@ class Interp:
             v, t = args
             ts = t if isinstance(t, tuple) and not (len(t) == 2 and t[0] == "builtin") else (t,)
             for tt in ts:
+                if isinstance(tt, tuple) and tt[0] == "builtin" and tt[1] == "object":
+                    return True
+                if isinstance(tt, ClassRef) and isinstance(v, tuple) and type(v).__name__ == tt.ci.name \
+                        and hasattr(v, "_fields"):
+                    return True
                 if isinstance(tt, tuple) and tt[0] == "builtin":
                     py = _BUILTIN_TYPES.get(tt[1])
                     if py is not None and isinstance(v, py) and not isinstance(v, (AObj, OrdInt)):
@@ -1464,8 +1613,9 @@ class Interp:
                 tot = tot + (int(x) if isinstance(x, bool) else x)
             return tot
         if name == "next":
-            it = iter(self.iterate(args[0]))
-            for x in it:
+            if not hasattr(args[0], "__next__"):
+                raise AbsRaise(f"TypeError: '{type(args[0]).__name__}' object is not an iterator", where)
+            for x in args[0]:
                 return x
             if len(args) > 1:
                 return args[1]
@@ -1500,16 +1650,19 @@ class Interp:
                 raise AbsRaise("ValueError: empty sequence", where)
             return (min if name == "min" else max)(seq)
         if name == "enumerate":
-            return list(enumerate(self.iterate(args[0])))
+            return iter(list(enumerate(self.iterate(args[0]), *args[1:], **kwargs)))
         if name == "zip":
-            return list(zip(*[list(self.iterate(a)) for a in args]))
+            return iter(list(zip(*[list(self.iterate(a)) for a in args])))
         if name == "range":
             return range(*[a.__index__() if isinstance(a, OrdInt) else a for a in args])
         if name == "map":
-            return [self._apply(args[0], x) for x in self.iterate(args[1])]
+            if len(args) > 2:
+                cols = [list(self.iterate(a)) for a in args[1:]]
+                return iter([self.apply_value(args[0], list(row), {}, n, where, None) for row in zip(*cols)])
+            return iter([self._apply(args[0], x) for x in self.iterate(args[1])])
         if name == "filter":
-            return [x for x in self.iterate(args[1])
-                    if (self.truth(x) if args[0] is None else self.truth(self._apply(args[0], x)))]
+            return iter([x for x in self.iterate(args[1])
+                         if (self.truth(x) if args[0] is None else self.truth(self._apply(args[0], x)))])
         if name == "divmod":
             return divmod(*args)
         if name == "pow":
@@ -1522,6 +1675,10 @@ class Interp:
                 return ClassRef(self.pm.cls(v._cls))
             return ("builtin", type(v).__name__)
         if name == "iter":
+            if hasattr(args[0], "__next__"):
+                return args[0]
+            if isinstance(args[0], list):
+                return iter(args[0])          # live view of the list, as in Python
             return iter(list(self.iterate(args[0])))
         if name == "vars":
             v = args[0]
@@ -1589,7 +1746,7 @@ class Interp:
         if name == "print":
             return None
         if name == "reversed":
-            return list(reversed(list(self.iterate(args[0]))))
+            return iter(list(reversed(list(self.iterate(args[0])))))
         if name == "hash":
             return ("hash", self.hash_key(args[0]))
         if name == "id":
@@ -1641,6 +1798,143 @@ class Interp:
                 out.append(x)
         return out
 
+    def make_record(self, ci: ClassInfo, rk: tuple[str, dict[str, bool]], obj: AObj, args: list[Any],
+                    kwargs: dict[str, Any], where: str) -> Any:
+        """Instance of a @dataclass / NamedTuple class: __init__ synthesised from the annotated fields."""
+        fields = self.pm.record_fields(ci)
+        names = [n for n, _ in fields]
+        if len(args) > len(names):
+            raise AbsRaise(f"TypeError: {ci.name}() takes {len(names)} positional arguments but {len(args)} were given", where)
+        vals: dict[str, Any] = dict(zip(names, args))
+        for k, v in kwargs.items():
+            if k not in names or k in vals:
+                raise AbsRaise(f"TypeError: {ci.name}() got an unexpected or repeated argument {k!r}", where)
+            vals[k] = v
+        fake = FuncInfo(f"{ci.qual}.<class>", "<class>", ast.FunctionDef(name="<class>"), ci.unit)  # type: ignore
+        for n, d in fields:
+            if n in vals:
+                continue
+            if d is None:
+                raise AbsRaise(f"TypeError: {ci.name}() missing required argument {n!r}", where)
+            dsrc = ast.unparse(d)
+            if isinstance(d, ast.Call) and dsrc.split("(")[0] in ("field", "dataclasses.field"):
+                kw = {k.arg: k.value for k in d.keywords}
+                if "default_factory" in kw:
+                    vals[n] = self.apply_value(self.eval(kw["default_factory"], {}, fake), [], {}, d, where, fake)
+                elif "default" in kw:
+                    vals[n] = self.eval(kw["default"], {}, fake)
+                else:
+                    raise AbsRaise(f"TypeError: {ci.name}() missing required argument {n!r}", where)
+            else:
+                vals[n] = self.class_attr(ci, n) if rk[0] == "namedtuple" else self._default(fake, f"{ci.qual}.{n}", d)
+        if rk[0] == "namedtuple":
+            import collections as _c
+            key = ("nt", ci.qual)
+            if key not in GLOBAL_STATE["modconst"]:
+                GLOBAL_STATE["modconst"][key] = _c.namedtuple(ci.name, names)  # type: ignore[misc]
+            return GLOBAL_STATE["modconst"][key](*[vals[n] for n in names])
+        for n in names:
+            obj._f[n] = vals[n]
+        obj._f["_record"] = (tuple(names), rk[1])
+        post = self.pm.method(ci, "__post_init__")
+        if post is not None:
+            self.call(post, [obj])
+        return obj
+
+    def _match(self, p: ast.pattern, v: Any, binds: dict[str, Any], env: dict[str, Any],
+               fi: Optional[FuncInfo]) -> bool:
+        """Structural pattern matching for the pattern kinds with a simple meaning."""
+        if isinstance(p, ast.MatchValue):
+            return self._eq(v, self.eval(p.value, env, fi))
+        if isinstance(p, ast.MatchSingleton):
+            return v is p.value
+        if isinstance(p, ast.MatchAs):
+            if p.pattern is not None and not self._match(p.pattern, v, binds, env, fi):
+                return False
+            if p.name is not None:
+                binds[p.name] = v
+            return True
+        if isinstance(p, ast.MatchOr):
+            for alt in p.patterns:
+                b2: dict[str, Any] = {}
+                if self._match(alt, v, b2, env, fi):
+                    binds.update(b2)
+                    return True
+            return False
+        if isinstance(p, ast.MatchSequence):
+            if not isinstance(v, (list, tuple)) or isinstance(v, str):
+                return False
+            stars = [i for i, x in enumerate(p.patterns) if isinstance(x, ast.MatchStar)]
+            if not stars:
+                return len(v) == len(p.patterns) and all(self._match(x, y, binds, env, fi) for x, y in zip(p.patterns, v))
+            i = stars[0]
+            tail = len(p.patterns) - i - 1
+            if len(v) < len(p.patterns) - 1:
+                return False
+            if not all(self._match(x, y, binds, env, fi) for x, y in zip(p.patterns[:i], v[:i])):
+                return False
+            if tail and not all(self._match(x, y, binds, env, fi) for x, y in zip(p.patterns[i + 1:], v[len(v) - tail:])):
+                return False
+            star = p.patterns[i]
+            if star.name is not None:  # type: ignore[attr-defined]
+                binds[star.name] = list(v[i:len(v) - tail])  # type: ignore[attr-defined]
+            return True
+        if isinstance(p, ast.MatchClass) and not p.patterns:
+            t = self.eval(p.cls, env, fi)
+            if not self.builtin("isinstance", [v, t], {}, p, ""):
+                return False
+            for an, ap in zip(p.kwd_attrs, p.kwd_patterns):
+                try:
+                    av = self.getattr(v, an, p, fi)
+                except AbsRaise:
+                    return False
+                if not self._match(ap, av, binds, env, fi):
+                    return False
+            return True
+        if isinstance(p, ast.MatchClass) and len(p.patterns) == 1 and not p.kwd_patterns:
+            t = self.eval(p.cls, env, fi)
+            if isinstance(t, tuple) and t and t[0] == "builtin" and t[1] in _BUILTIN_TYPES:
+                return bool(self.builtin("isinstance", [v, t], {}, p, "")) and self._match(p.patterns[0], v, binds, env, fi)
+        raise AnalysisError("ABSINT", f"match pattern outside fragment: {ast.unparse(p) if hasattr(ast, 'unparse') else p}",
+                            loc(fi.unit.path, p) if fi else "")
+
+    def signature_stub(self, fi: FuncInfo, fn: Any) -> Any:
+        """Stand-in for the function fi that receives the arguments in fi's own parameter order, however the
+        caller wrote them (positionally or by keyword; defaults filled in)."""
+        def stub(*args: Any, **kwargs: Any) -> Any:
+            env = self._bind(fi, list(args), dict(kwargs))
+            a = fi.node.args
+            return fn(*[env[x.arg] for x in a.posonlyargs + a.args])
+        return stub
+
+    def _bind_callable(self, f: Any, obj: Any) -> Any:
+        fn = lambda *a, **k: self.apply_value(f, [obj] + list(a), dict(k), ast.Constant(value=None), "", None)  # noqa: E731
+        fn._raw = True  # type: ignore[attr-defined]
+        return fn
+
+    def pyfunc(self, f: Any) -> Any:
+        """Python callable standing for an evaluated callable (for library calls that take callbacks)."""
+        return lambda *a, **k: self.apply_value(f, list(a), dict(k), ast.Constant(value=None), "", None)
+
+    def _re_attr(self, obj: Any, attr: str, where: str) -> Any:
+        v = getattr(obj, attr, _MISSING)
+        if v is _MISSING:
+            raise AbsRaise(f"AttributeError: {type(obj).__name__}.{attr}", where)
+        if not callable(v):
+            return v
+
+        def run(*a: Any, **k: Any) -> Any:
+            a2 = [self.pyfunc(x) if isinstance(x, (Lambda, FuncRef, BoundMethod, LocalFunc)) or
+                  (isinstance(x, tuple) and x and x[0] == "pymethod") else x for x in a]
+            if any(isinstance(x, (AObj, OrdInt)) for x in a2):
+                raise AbsRaise("TypeError: expected string or bytes-like object", where)
+            try:
+                return v(*a2, **k)
+            except (TypeError, IndexError) as exc:
+                raise AbsRaise(f"{type(exc).__name__}: {exc}", where) from exc
+        run._raw = True  # type: ignore[attr-defined]
+        return run
+
     def class_attr(self, c: ClassInfo, attr: str) -> Any:
         """A class-level value is created once (when the class body runs) and shared by every instance
         and every later use in the process; the class body sees the names assigned before it."""
@@ -1651,10 +1945,13 @@ class Interp:
 
             class _Body(dict):
                 def __contains__(self, k: object) -> bool:
-                    return k in c.class_attrs and k != attr
+                    return (k in c.class_attrs and k != attr) or k in c.methods
 
                 def __getitem__(self, k: str) -> Any:
-                    return it.class_attr(c, k)
+                    if k in c.class_attrs and k != attr:
+                        return it.class_attr(c, k)
+                    m = c.methods[k]
+                    return FuncRef(m, it.decorated_attrs(m))
             fake = FuncInfo(f"{c.qual}.<class>", "<class>", ast.FunctionDef(name="<class>"), c.unit)  # type: ignore
             store[key] = self.eval(c.class_attrs[attr], _Body(), fake)
         return store[key]
@@ -1691,6 +1988,11 @@ class Interp:
                 m = self.pm.method(self.pm.cls(v._cls), "__hash__")
                 if m is not None:
                     return ("obj", v._cls, self.call(m, [v]))
+            rec = v._f.get("_record")
+            if rec is not None and rec[1].get("eq", True):
+                if not rec[1].get("frozen") and not rec[1].get("unsafe_hash"):
+                    raise AbsRaise(f"TypeError: unhashable type: '{v._cls}'")
+                return ("rec", v._cls, tuple(self.hash_key(v._f[n]) for n in rec[0]))
             return ("id", id(v))
         if isinstance(v, EnumVal):
             return ("enum", v.cls, v.name)
@@ -1752,7 +2054,7 @@ _STR_METHODS = {"startswith", "endswith", "lower", "upper", "replace", "strip", 
                 "partition", "rpartition", "splitlines", "zfill", "isidentifier", "isupper",
                 "islower", "isnumeric", "removeprefix", "removesuffix"}
 _MISSING = object()
-_BUILTINS = {"map", "filter", "divmod", "pow", "repr", "type", "iter", "vars", "open", "setattr", "getattr", "dir", "round", "print", "reversed", "hash", "id", "len", "any", "all", "sum", "next", "isinstance", "list", "tuple", "set", "sorted",
+_BUILTINS = {"object", "slice", "NotImplemented", "map", "filter", "divmod", "pow", "repr", "type", "iter", "vars", "open", "setattr", "getattr", "dir", "round", "print", "reversed", "hash", "id", "len", "any", "all", "sum", "next", "isinstance", "list", "tuple", "set", "sorted",
              "str", "bool", "int", "min", "max", "enumerate", "zip", "range", "hasattr",
              "callable", "float", "abs", "dict", "frozenset", "cast"}
 
@@ -1768,6 +2070,24 @@ def _load(t: ast.expr) -> ast.expr:
     """Copy of an assignment target usable in load context."""
     c = ast.parse(ast.unparse(t), mode="eval").body
     return c
+
+
+class ADeque(list):
+    """collections.deque as the list it is, with the left-end operations."""
+    def popleft(self) -> Any:
+        return self.pop(0)
+
+    def appendleft(self, x: Any) -> None:
+        self.insert(0, x)
+
+    def extendleft(self, xs: Any) -> None:
+        for x in xs:
+            self.insert(0, x)
+
+    def rotate(self, n: int = 1) -> None:
+        if self:
+            n %= len(self)
+            self[:] = self[-n:] + self[:-n]
 
 
 class TaggedList(list):
